@@ -481,6 +481,33 @@ def run(h: Harness):
                         break
                 pool.extend(new[: max(0, 10 - len(pool))])
                 w.add(new)
+            # (a') parents whose genome was made by ANOTHER object of the same representation (other gene_length: a warm start, an injected
+            # genome): whatever the operator makes of them -- a child or an error -- they come out as they went in
+            if name in ("GE", "SGE", "Stack"):
+                import linear as _lin
+                with warnings.catch_warnings():
+                    warnings.simplefilter("ignore")
+                    others = {"GE": lambda n: _lin.GE(g, synth.make_decider("grow", mind + 2, r, g), gene_length=n),
+                              "SGE": lambda n: _lin.SGE(g, synth.make_decider("grow", mind + 2, r, g), gene_length=n),
+                              "Stack": lambda n: _lin.Stack(g, gene_length=n)}[name]
+                    st, made = safe(lambda: [others(n).create_genotype(r) for n in ({"GE": (5, 12, 48), "SGE": (3, 7, 24), "Stack": (40, 100, 300)}[name])])
+                if st == "ok":
+                    snaps = [geno_snapshot(x, b) for x in made]
+                    for j, x in enumerate(made):
+                        for _ in range(3):
+                            safe(lambda: rep.mutate(r, x))
+                            safe(lambda: rep.crossover(r, x, made[(j + 1) % len(made)]))
+                            safe(lambda: rep.crossover(r, pool[0].genotype, x))
+                    h.count(f"foreign-length-parents:{name}")
+                    now = [geno_snapshot(x, b) for x in made]
+                    if now != snaps:
+                        j = next(k for k in range(len(made)) if now[k] != snaps[k])
+                        h.fail(f"{name}:mutate", "input-modified",
+                               f"{name}.mutate / crossover given a parent genome made with another gene_length changed that parent: "
+                               f"{len(snaps[j][1])} -> {len(now[j][1])} genes ({str(snaps[j][1])[:60]} -> {str(now[j][1])[:60]})",
+                               [line, name, seedv, "foreign-length"])
+                    if not w.verify("crossover", f"{name}.crossover with a foreign-length mate", [line, name, seedv, "foreign-length"]):
+                        continue
             # (b0) variation steps on a FRESH population (never evaluated, never mapped -- what an initialiser or NoveltyStep hands over):
             # mutation and crossover have no business mapping their parents; under dynamic SGE a parent's genes stay exactly as they were
             fresh = []
@@ -565,6 +592,24 @@ def run(h: Harness):
                 # evaluation inside steps may fill fitness caches of inputs (none -> some): snapshots
                 # only record what was cached before, so still_valid tolerates fills
                 if not w2.verify(f"step[{sname}]", f"{sname}.apply on {name} population", [line, name, seedv, sname, k]):
+                    break
+            # the ranking helpers the selection steps are built on (public: custom steps, recorders and reports call them with the
+            # population itself): the list they are handed keeps its order and its members
+            from geneticengine.problems import helpers as _helpers
+            for hname, call in (("sort_population", lambda lst: _helpers.sort_population(lst, problem)),
+                                ("best_individual", lambda lst: _helpers.best_individual(lst, problem)),
+                                ("is_better", lambda lst: _helpers.is_better(problem, lst[0], lst[-1]))):
+                given = list(pool)
+                rng.shuffle(given)
+                order = [id(x) for x in given]
+                st, _out = safe(lambda: call(given))
+                h.count(f"helper:{hname}:{st}")
+                if [id(x) for x in given] != order:
+                    moved = sum(1 for x, y in zip(given, order) if id(x) != y)
+                    h.fail(f"{name}:helper[{hname}]", "input-population-list-modified",
+                           f"problems.helpers.{hname} re-ordered / changed the population list it was given: {moved} of {len(order)} positions "
+                           f"hold another individual than before the call", [line, name, seedv, hname])
+                if not w2.verify(f"helper[{hname}]", f"problems.helpers.{hname} on {name} population", [line, name, seedv, hname]):
                     break
             # (b') lexicase selection needs a multi-objective problem: same checks, plus the list container
             # (some programs have an objective that cannot be computed: NaN)
